@@ -117,6 +117,12 @@ class History:
         else: cls_path = 'C_CreateObject'
         s.trace.append(('create', cls, tag.decode()) + (('no CKA_PRIVATE in the template',) if cls_path != 'C_CreateObject' else ()))
         # dates of private objects are byte strings like any other: random valid dates
+        # an application may state the key check value itself (it is verified against the value and stored): CKA_CHECK_VALUE is a byte string of a private object like any other
+        kv = dict((a, v) for a, v in tmpl if isinstance(v, bytes)).get('CKA_VALUE')
+        if cls in ('sk-aes', 'sk-des3', 'sk-des2', 'sk-generic', 'sk-hmac') and kv and s.rnd.random() < .5:
+            import refcrypt
+            try: tmpl = tmpl + [('CKA_CHECK_VALUE', refcrypt.kcv('aes' if cls == 'sk-aes' else 'generic' if cls in ('sk-generic', 'sk-hmac') else 'des3', kv + (kv[:8] if cls == 'sk-des2' else b'')))]; s.part.count('creates_with_supplied_check_value'); cls_path += '+supplied-check-value'
+            except Exception: pass
         r = s.x().call('C_CreateObject', s=s.S, tmpl=s.T(tmpl)); s.part.count('calls_create')
         if r['rv'] != 0: s.part.count('refused_create'); s.part.observe('refused C_CreateObject (no verdict)', {'class': cls, 'rv': r['rvname']}); return
         s.adopt(tag, cls, cls_path, r['h'], tmpl)
@@ -205,7 +211,13 @@ class History:
         c = [o for o in s.M.values() if o.alive and o.cls in s.gen.table]
         if not c: return
         o = s.rnd.choice(c); cand = [(a, v) for a, v in s.gen.settable(o.cls) if isinstance(v, bytes)] + [('CKA_LABEL', o.tag + b'|' + s.fresh(s.rnd.randrange(16, 60)))]
-        tmpl = s.rnd.sample(cand, min(len(cand), s.rnd.randrange(1, 4))); s.trace.append(('set', o.tag.decode(), o.cls, [a for a, v in tmpl]))
+        tmpl = s.rnd.sample(cand, min(len(cand), s.rnd.randrange(1, 4)))
+        if o.cls.startswith('sk-') and s.rnd.random() < .4:      # re-assert the key's own check value (what a provisioning tool does after reading it)
+            try:
+                cv = s.L.read(s.S, o.h).get('CKA_CHECK_VALUE')
+                if isinstance(cv, bytes) and len(cv) == 3: tmpl = tmpl + [('CKA_CHECK_VALUE', cv)]; s.part.count('sets_with_supplied_check_value')
+            except ApiError: pass
+        s.trace.append(('set', o.tag.decode(), o.cls, [a for a, v in tmpl]))
         r = s.x().call('C_SetAttributeValue', s=s.S, o=o.h, tmpl=s.T(tmpl)); s.part.count('calls_set')
         if r['rv'] != 0: s.part.count('refused_set'); return
         snap = s.L.read(s.S, o.h)
@@ -484,6 +496,19 @@ def w_perm(job):
         L.restart('newproc'); S = L.login(b'perm-A', pin=RUSER); x = L.x
         if S is not None: x.call('C_CreateObject', s=S, tmpl=x.T([('CKA_CLASS', ck.CKO_DATA), ('CKA_TOKEN', True), ('CKA_PRIVATE', True), ('CKA_LABEL', b'after-restart'), ('CKA_VALUE', b'x' * 64)]))
         check('new process')
+        # the same process, re-initialised (C_Finalize / C_Initialize) after softhsm2.conf was given ANOTHER umask: everything created from now on follows the new text
+        sp2 = '0027' if um == 0o077 else 'default'; um2 = umask_of(sp2); old_paths = {p for p, st in persist.all_files(tok)}
+        assert x.call('C_Finalize')['rv'] == 0
+        conf = open(d + '/softhsm2.conf').read(); conf = '\n'.join(l for l in conf.splitlines() if not l.startswith('objectstore.umask')) + '\n' + ('' if sp2 == 'default' else 'objectstore.umask = %s\n' % sp2)
+        open(d + '/softhsm2.conf', 'w').write(conf); assert x.call('C_Initialize', locking='os')['rv'] == 0
+        L.init_token(b'perm-C', so=RSO, user=RUSER); S = L.login(b'perm-C', pin=RUSER); assert S is not None
+        x.call('C_CreateObject', s=S, tmpl=x.T([('CKA_CLASS', ck.CKO_DATA), ('CKA_TOKEN', True), ('CKA_PRIVATE', True), ('CKA_LABEL', b'after-reconfiguration'), ('CKA_VALUE', b'y' * 64)]))
+        nnew = 0
+        for p, st in persist.all_files(tok):
+            if p in old_paths: continue
+            mode = stat.S_IMODE(st.st_mode); r = 'dir' if stat.S_ISDIR(st.st_mode) else role(p); nnew += 1; part.case(('mode-bits-after-reconfiguration', sp, sp2, b, r)); part.count('paths_statted')
+            if mode & um2: part.violation(f'file-mode|{b},umask-changed-between-initialisations,{r}|bits-outside-umask', f'a {r} created after C_Finalize / C_Initialize with a changed objectstore.umask ("{sp}" -> "{sp2}") has permission bits outside the umask now configured', dict(mode=oct(mode), umask_now=oct(um2), umask_before=oct(um), backend=b))
+        if not nnew: part.inconc(f'permission job {b}/{sp}: nothing was created after the reconfiguration')
         need = {'dir', 'db'} if b == 'db' else {'dir', 'token.object', 'lock', 'object', 'generation'}
         if not need <= roles: part.inconc(f'permission job {b}/{sp}: kinds of path never seen: {sorted(need - roles)}')
         if exact[0]: part.distinct.add(('mode-control', sp, b))
